@@ -261,4 +261,139 @@ theorem track_init (info : Info) (p : Pairings) : Track (initialSf info p) (init
   Or.inr (by simp [init, advertisedSf, initialSf_eq])
 
 
+/-! ## request identifiers are fresh -/
+
+def Obs.rid : Obs → Nat
+  | .write _ r => r
+  | .cipher _ r => r
+  | .publish r _ => r
+
+/-- every identifier mentioned anywhere belongs to a request that was already dispatched -/
+structure Fresh (s : Sys) : Prop where
+  log : ∀ o ∈ s.log, o.rid < s.nextRid
+  deferred : ∀ d ∈ s.deferred, d.2 < s.nextRid
+  execQ : ∀ r ∈ s.execQ, r < s.nextRid
+  loopQ : ∀ r ∈ s.loopQ, r < s.nextRid
+
+theorem fresh_init (info : Info) (p : Pairings) : Fresh (init info p) :=
+  ⟨by simp [init], by simp [init], by simp [init], by simp [init]⟩
+
+theorem pr_nextRid (s : Sys) (c rid : Nat) (r : Resp) : (processResponse s c rid r).nextRid = s.nextRid := by
+  unfold processResponse
+  cases r.task <;> cases r.sharedKey <;> cases r.pairingChanged <;> rfl
+
+theorem pr_mem_log (s : Sys) (c rid : Nat) (r : Resp) (o : Obs)
+    (h : o ∈ (processResponse s c rid r).log) : o ∈ s.log ∨ o.rid = rid := by
+  unfold processResponse at h
+  revert h
+  cases r.task <;> cases r.sharedKey <;> cases r.pairingChanged <;>
+    simp only [Bool.false_eq_true, if_true, if_false, List.mem_cons] <;> intro h <;>
+    first
+      | exact Or.inl h
+      | (rcases h with rfl | h
+         · exact Or.inr rfl
+         · first
+            | exact Or.inl h
+            | (rcases h with rfl | h
+               · exact Or.inr rfl
+               · exact Or.inl h))
+
+theorem pr_mem_deferred (s : Sys) (c rid : Nat) (r : Resp) (d : Nat × Nat)
+    (h : d ∈ (processResponse s c rid r).deferred) : d ∈ s.deferred ∨ d.2 = rid := by
+  unfold processResponse at h
+  revert h
+  cases r.task <;> cases r.sharedKey <;> cases r.pairingChanged <;>
+    simp only [Bool.false_eq_true, if_true, if_false, List.mem_append, List.mem_singleton] <;> intro h <;>
+    first
+      | exact Or.inl h
+      | (rcases h with h | rfl
+         · exact Or.inl h
+         · exact Or.inr rfl)
+
+theorem pr_mem_execQ (s : Sys) (c rid : Nat) (r : Resp) (x : Nat)
+    (h : x ∈ (processResponse s c rid r).execQ) : x ∈ s.execQ ∨ x = rid := by
+  rw [pr_execQ] at h
+  cases hp : r.pairingChanged
+  · rw [hp] at h; exact Or.inl (by simpa using h)
+  · rw [hp] at h
+    simp only [if_true, List.mem_append, List.mem_singleton] at h
+    exact h
+
+theorem fresh_processResponse (s : Sys) (conn : Nat) (r : Resp) (p : Pairings) (h : Fresh s) :
+    Fresh (processResponse { s with paired := p, nextRid := s.nextRid + 1 } conn s.nextRid r) := by
+  obtain ⟨h1, h2, h3, h4⟩ := h
+  refine ⟨?_, ?_, ?_, ?_⟩
+  · intro o ho
+    rw [pr_nextRid]
+    rcases pr_mem_log _ _ _ _ _ ho with ho | ho
+    · exact Nat.lt_succ_of_lt (h1 o ho)
+    · show o.rid < s.nextRid + 1
+      omega
+  · intro d hd
+    rw [pr_nextRid]
+    rcases pr_mem_deferred _ _ _ _ _ hd with hd | hd
+    · exact Nat.lt_succ_of_lt (h2 d hd)
+    · show d.2 < s.nextRid + 1
+      omega
+  · intro x hx
+    rw [pr_nextRid]
+    rcases pr_mem_execQ _ _ _ _ _ hx with hx | hx
+    · exact Nat.lt_succ_of_lt (h3 x hx)
+    · show x < s.nextRid + 1
+      omega
+  · intro x hx
+    rw [pr_nextRid]
+    rw [pr_loopQ] at hx
+    exact Nat.lt_succ_of_lt (h4 x hx)
+
+theorem fresh_step (s : Sys) (st : Step) (h : Fresh s) : Fresh (step s st) := by
+  cases st with
+  | request conn r =>
+    simp only [step]
+    exact fresh_processResponse s conn _ _ h
+  | taskDone i =>
+    simp only [step]
+    cases hd : s.deferred[i]? with
+    | none => exact h
+    | some cr =>
+      obtain ⟨conn, rid⟩ := cr
+      refine ⟨?_, ?_, h.execQ, h.loopQ⟩
+      · intro o ho
+        simp only [List.mem_cons] at ho
+        rcases ho with rfl | ho
+        · exact h.deferred (conn, rid) (List.mem_of_getElem? hd)
+        · exact h.log o ho
+      · intro d hd'
+        exact h.deferred d ((List.eraseIdx_sublist _ _).mem hd')
+  | execRun i =>
+    simp only [step]
+    cases hd : s.execQ[i]? with
+    | none => exact h
+    | some rid =>
+      refine ⟨h.log, h.deferred, ?_, ?_⟩
+      · intro x hx; exact h.execQ x ((List.eraseIdx_sublist _ _).mem hx)
+      · intro x hx
+        simp only [List.mem_append, List.mem_singleton] at hx
+        rcases hx with hx | rfl
+        · exact h.loopQ x hx
+        · exact h.execQ x (List.mem_of_getElem? hd)
+  | loopRun i =>
+    simp only [step]
+    cases hd : s.loopQ[i]? with
+    | none => exact h
+    | some rid =>
+      refine ⟨?_, h.deferred, h.execQ, ?_⟩
+      · intro o ho
+        simp only [List.mem_cons] at ho
+        rcases ho with rfl | ho
+        · exact h.loopQ rid (List.mem_of_getElem? hd)
+        · exact h.log o ho
+      · intro x hx; exact h.loopQ x ((List.eraseIdx_sublist _ _).mem hx)
+
+theorem fresh_run (s : Sys) (steps : List Step) (h : Fresh s) : Fresh (run s steps) := by
+  induction steps generalizing s with
+  | nil => exact h
+  | cons st rest ih => exact ih _ (fresh_step s st h)
+
+
 end Hap.AdvertSys
